@@ -115,6 +115,8 @@ fn run_worker(page_pool: PagePool, command_rx: Receiver<IoPacket>) {
                 };
 
                 let complete = CompleteIo { command, result };
+                #[cfg(feature = "verif")]
+                verif_complete(&complete);
                 let _ = completion_sender.send(complete);
             }
         } else if shutdown {
@@ -157,6 +159,12 @@ fn run_worker(page_pool: PagePool, command_rx: Receiver<IoPacket>) {
                         break;
                     }
                 }
+            };
+
+            #[cfg(feature = "verif")]
+            let next_io = match verif_submit(next_io) {
+                Some(next_io) => next_io,
+                None => continue,
             };
 
             to_submit = true;
@@ -214,4 +222,41 @@ fn submission_entry(command: &mut IoCommand) -> squeue::Entry {
                 .build()
         }
     }
+}
+
+#[cfg(feature = "verif")]
+fn verif_describe(kind: &IoKind) -> (bool, i32, u64, &[u8]) {
+    match kind {
+        IoKind::Read(fd, pn, _) => (false, *fd, *pn * PAGE_SIZE as u64, &[]),
+        IoKind::Write(fd, pn, page) => (true, *fd, *pn * PAGE_SIZE as u64, &page[..]),
+        IoKind::WriteArc(fd, pn, page) => (true, *fd, *pn * PAGE_SIZE as u64, &page[..]),
+        // SAFETY: the page is alive (owned by the pending command) and only read here, exactly
+        // as the kernel is about to read it.
+        IoKind::WriteRaw(fd, pn, page) => (true, *fd, *pn * PAGE_SIZE as u64, unsafe {
+            std::slice::from_raw_parts(page.as_ptr(), PAGE_SIZE)
+        }),
+    }
+}
+
+// Report the submission of a packet to the verification hook. If the hook injects an error, the
+// packet is completed with that error without touching the file and `None` is returned.
+#[cfg(feature = "verif")]
+fn verif_submit(packet: IoPacket) -> Option<IoPacket> {
+    let (write, fd, offset, data) = verif_describe(&packet.command.kind);
+    match crate::verif::uring_submit(write, fd, offset, data) {
+        None => Some(packet),
+        Some(errno) => {
+            let _ = packet.completion_sender.send(CompleteIo {
+                command: packet.command,
+                result: Err(std::io::Error::from_raw_os_error(errno)),
+            });
+            None
+        }
+    }
+}
+
+#[cfg(feature = "verif")]
+fn verif_complete(complete: &CompleteIo) {
+    let (write, fd, offset, _) = verif_describe(&complete.command.kind);
+    crate::verif::uring_complete(write, fd, offset, complete.result.is_ok());
 }
